@@ -21,7 +21,11 @@ EXPLANATION = (
     "C12.assign: increase/decrease/assign helpers are symbolically executed to old+v / old-v / v. "
     "C12.order: def-use chains show that child 0 is the left operand / assignment target and child 1 the right operand at every "
     "table call, tree construction and printer. C12.env: every environment value reaches numeric use through float()/int(). "
-    "C12.tables: every operator accepted by the parsers is a key of the evaluator tables."
+    "C12.tables: every operator accepted by the parsers is a key of the evaluator tables. "
+    "C12.construct / C12.leaf / C12.missing / C12.branch: the guards of construct_expression_tree, calculate, set_expression_value and "
+    "evaluate_expression are decided for each concrete class of input (number token, (op a b) over numbers, fluent with 0..2 written "
+    "arguments, compound expression; fluent leaf, number leaf, operator node; each assignment / comparison root operator) and the "
+    "provenance of what is returned / stored / applied on the paths that stay reachable is compared with what that class denotes."
 )
 UNDECIDED = ("floating-point results of evaluation; print/re-read fidelity of values beyond operand order; the "
              "missing-fluent-reads-as-0 convention; evaluation of trees deeper than the recursion shows structurally")
@@ -195,10 +199,28 @@ def rule_assign(repo: Repo, rid: str = "C12.assign") -> RuleResult:
     return r
 
 
+def _norm_path(path: tuple) -> tuple:
+    """positions in one vocabulary: a component taken by unpacking is the component taken by index (`a, b = xs` / `xs[0], xs[1]`), and
+    the i-th element of the tail from k on is element k+i (`head, *rest = xs; rest[0]` / `xs[1:][0]` / `xs[1]`)"""
+    out = []
+    for st in path:
+        if st.startswith("unpack:") and st[7:].isdigit():
+            st = "item:" + st[7:]
+        if st.startswith("item:") and st[5:].isdigit() and out and out[-1].startswith("slice:") and out[-1].endswith(":") and out[-1][6:-1].isdigit():
+            out[-1] = f"item:{int(out[-1][6:-1]) + int(st[5:])}"
+            continue
+        out.append(st)
+    return tuple(out)
+
+
+def _norm(paths) -> set:
+    return {_norm_path(x) for x in paths}
+
+
 def _child_indices(paths) -> set:
     """indices k such that some path goes through .children[k]"""
     out = set()
-    for p in paths:
+    for p in _norm(paths):
         for a, b in zip(p, p[1:]):
             if a == "attr:children" and b.startswith("item:"):
                 out.add(b[5:])
@@ -252,42 +274,39 @@ def rule_order(repo: Repo, rid: str = "C12.order") -> RuleResult:
                 for k in call.keywords:
                     if k.arg != "children":
                         continue
-                    kids = _two_elements(p, k.value)
-                    if kids is None:
-                        continue
-                    e0, e1 = p.trace(kids[0]), p.trace(kids[1])
-                    i0, i1 = _child_indices(e0), _child_indices(e1)
-                    if i0 or i1:
-                        if not once(call, "rebuild"):
-                            continue
-                        r.site(L.site(f, call, "tree rebuild"))
-                        seen_kinds.add("rebuild")
-                        if i0 == {"0"} and i1 == {"1"}:
-                            r.ok({"function": f.qn, "children": [unparse(x, 50) for x in kids]})
-                        else:
-                            r.fail(Finding(rid, f, "rebuild:children-order",
-                                           f"rebuilt children come from source children {sorted(i0)} and {sorted(i1)}; expected [0] and [1]", node=call))
-                    else:
-                        # built from the parsed list: positions 1 and 2 of the AST
-                        # position in the parsed list: by index or by unpacking (`op, left, right = ast`)
-                        pos = lambda paths: {"item:" + s_.split(":", 1)[1] for pth in paths for s_ in pth
-                                             if (s_.startswith("item:") or s_.startswith("unpack:")) and pth[0].startswith("param:")}
-                        a0, a1 = pos(e0), pos(e1)
-                        if (a0 or a1) and once(call, "construct"):
-                            r.site(L.site(f, call, "tree construction"))
-                            seen_kinds.add("construct")
-                            rebuilt = sorted({pth[0] for pth in e0 | e1 if pth[0] in ("fresh:list", "fresh:tuple", "fresh:comp")})
-                            if rebuilt:
-                                # the operand handed to the recursion is a list assembled here, not a sub-term of the text as written
-                                # (re-association of (- a b c) into (- a (- b c)) changes the value)
-                                r.fail(Finding(rid, f, "construct:reassembled-operand",
-                                               "an operand of the new node is a list assembled in the function instead of a sub-term of the parsed text: "
-                                               "the formula that is stored is not the one that was written", node=call))
-                            elif a0 == {"item:1"} and a1 == {"item:2"}:
-                                r.ok({"function": f.qn, "children_from_ast_positions": [sorted(a0), sorted(a1)]})
+                    for kids in _two_elements_all(p, k.value):
+                        e0, e1 = p.trace(kids[0]), p.trace(kids[1])
+                        i0, i1 = _child_indices(e0), _child_indices(e1)
+                        if i0 or i1:
+                            if not once(kids[0], "rebuild"):
+                                continue
+                            r.site(L.site(f, call, "tree rebuild"))
+                            seen_kinds.add("rebuild")
+                            if i0 == {"0"} and i1 == {"1"}:
+                                r.ok({"function": f.qn, "children": [unparse(x, 50) for x in kids]})
                             else:
-                                r.fail(Finding(rid, f, "construct:children-order",
-                                               f"children built from AST positions {sorted(a0)} and {sorted(a1)}; expected [1] and [2]", node=call))
+                                r.fail(Finding(rid, f, "rebuild:children-order",
+                                               f"rebuilt children come from source children {sorted(i0)} and {sorted(i1)}; expected [0] and [1]", node=call))
+                        else:
+                            # built from the parsed list: positions 1 and 2 of the AST
+                            # position in the parsed list: by index or by unpacking (`op, left, right = ast`)
+                            pos = lambda paths: {s_ for pth in _norm(paths) for s_ in pth if s_.startswith("item:") and pth[0].startswith("param:")}
+                            a0, a1 = pos(e0), pos(e1)
+                            if (a0 or a1) and once(kids[0], "construct"):
+                                r.site(L.site(f, call, "tree construction"))
+                                seen_kinds.add("construct")
+                                rebuilt = sorted({pth[0] for pth in e0 | e1 if pth[0] in ("fresh:list", "fresh:tuple", "fresh:comp")})
+                                if rebuilt:
+                                    # the operand handed to the recursion is a list assembled here, not a sub-term of the text as written
+                                    # (re-association of (- a b c) into (- a (- b c)) changes the value)
+                                    r.fail(Finding(rid, f, "construct:reassembled-operand",
+                                                   "an operand of the new node is a list assembled in the function instead of a sub-term of the parsed text: "
+                                                   "the formula that is stored is not the one that was written", node=call))
+                                elif a0 == {"item:1"} and a1 == {"item:2"}:
+                                    r.ok({"function": f.qn, "children_from_ast_positions": [sorted(a0), sorted(a1)]})
+                                else:
+                                    r.fail(Finding(rid, f, "construct:children-order",
+                                                   f"children built from AST positions {sorted(a0)} and {sorted(a1)}; expected [1] and [2]", node=call))
         # (c) printers: text that mentions results derived from children[0] and children[1], however it is assembled
         ev = None
         cands = [n.value for n in ast.walk(f.node) if isinstance(n, ast.Return) and n.value is not None] + \
@@ -335,6 +354,27 @@ def _all_constant(p, e: ast.AST) -> bool:
     return bool(tr) and all(len(x) == 1 and x[0].startswith("const:") for x in tr)
 
 
+def _two_elements_all(p, e: ast.AST) -> list:
+    """the two-element displays an expression can denote: the display itself, or -- for a local name -- the display of each of its
+    definitions (`kids = [a, b]` in one branch, `kids = [c, d]` in the other)"""
+    one = _two_elements(p, e)
+    if one is not None:
+        return [one]
+    out = []
+    if isinstance(e, ast.Name):
+        try:
+            at = p.node_of(e)
+        except KeyError:
+            return []
+        for d in sorted(d for d in p.rd.defs_reaching(at, e.id) if d != p.g.entry):
+            st = p.g.stmt[d]
+            if isinstance(st, (ast.Assign, ast.AnnAssign)) and st.value is not None and not isinstance(st.value, ast.Name):
+                got = _two_elements(p, st.value)
+                if got is not None:
+                    out.append(got)
+    return out
+
+
 def _two_elements(p, e: ast.AST):
     """[a, b] literal, or a local name whose single definition is one"""
     if isinstance(e, (ast.List, ast.Tuple)) and len(e.elts) == 2:
@@ -372,6 +412,31 @@ def rule_env(repo: Repo) -> RuleResult:
                     owner = (m.short, "<module>", str(m.path))
                     r.fail(Finding("C12.env", owner, f"env:{var}", f"os.environ.get({var!r}, ..) is used without float()/int(): "
                                    f"when the variable is set the value is a str", node=n))
+    # one setting, one default: every read of the same variable falls back to the same number (otherwise the parts of one expression that
+    # are printed by different modules are cut at different precisions when the variable is not set)
+    defaults = {}
+    for m in repo.mods.values():
+        for n in ast.walk(m.tree):
+            if isinstance(n, ast.Call) and ast.unparse(n.func) in ("os.environ.get", "os.getenv") and len(n.args) == 2 \
+                    and isinstance(n.args[0], ast.Constant) and isinstance(n.args[0].value, str):
+                ok, v = repo.fold(n.args[1], m.name)
+                try:
+                    num = float(v) if ok and not isinstance(v, bool) else None
+                except (TypeError, ValueError):
+                    num = None
+                if num is not None:
+                    defaults.setdefault(n.args[0].value, []).append((m.short, num, m, n))
+    for var, reads in sorted(defaults.items()):
+        if len(reads) < 2:
+            continue
+        if len({num for _s, num, _m, _n in reads}) == 1:
+            r.ok({"var": var, "default": reads[0][1], "reads": len(reads)})
+        else:
+            reads.sort(key=lambda x: x[0])
+            m = reads[0][2]
+            r.fail(Finding("C12.env", (m.short, "<module>", str(m.path)), f"env-default:{var}",
+                           f"{var} falls back to different defaults: " + ", ".join(f"{s_}: {num:g}" for s_, num, _m, _n in reads) +
+                           " -- with the variable unset the modules disagree about the configured value", node=reads[0][3]))
     r.require_sites(2)
     return r
 
@@ -484,8 +549,121 @@ def rule_leaf(repo: Repo) -> RuleResult:
         r.ok({"set_expression_value_recurses_on": sorted(idx)})
     else:
         r.fail(Finding("C12.leaf", g, "recursion:children", f"set_expression_value recurses on children {sorted(idx)}; expected both 0 and 1"))
+    _leaf_scenes(repo, r, f, p, g, pg)
     r.require_sites(2)
     return r
+
+
+# the classes of node an evaluator is handed
+_OPERATOR_FN = {"+": ("Add", "add"), "-": ("Sub", "sub"), "*": ("Mult", "mul"), "/": ("Div", "truediv")}   # operator -> (ast BinOp, operator.<fn>)
+
+
+def _node_classify(N: str):
+    """what an expression of a tree walk denotes, by provenance: the node's children (a sequence), its is_leaf flag, its value (an object
+    -- PDDLFunction / number / operator string -- and, when a string, the operator token)"""
+    def classify(tr: frozenset):
+        if len(tr) != 1:
+            return None
+        (x,) = tuple(tr)
+        if x == (f"param:{N}", "attr:children"):
+            return {"seq": 0}
+        if x == (f"param:{N}", "attr:is_leaf"):
+            return {"flag": "leaf"}
+        if x == (f"param:{N}", "attr:value"):
+            return {"obj": "value", "token": "op"}
+        return None
+    return classify
+
+
+_FLUENT_LEAF = {"len": 0, "leaf": True, "isa:value": "PDDLFunction"}
+_NUMBER_LEAF = {"len": 0, "leaf": True, "isa:value": "float"}
+_inner = lambda op: {"len": 2, "leaf": False, "isa:value": "str", "op": op}
+
+
+def _leaf_scenes(repo: Repo, r: RuleResult, f, p, g, pg) -> None:
+    """calculate / set_expression_value decided per class of node (fluent leaf, number leaf, operator node): what is returned, and that
+    the walk descends into both children of an operator node"""
+    from ._c12_util import Scenes, returns_under
+    rid = r.rule
+    N = f.params[0]
+    sc = Scenes(repo, f, p, _node_classify(N))
+    G = L.Guards(f, sc.matcher)
+    done = set()
+
+    def fail(fi, role, text, node=None):
+        if (fi.qn, role) not in done:
+            done.add((fi.qn, role))
+            r.fail(Finding(rid, fi, role, text, node=node))
+
+    def returned(scene):
+        val = sc.valuation(G, scene)
+        seen = G.reach(val)
+        under = G.under(val, seen)
+        return [(ret, _safe_trace(p, ret.value, under=under)) for ret in returns_under(G, seen)]
+
+    for scene, what, want, role in ((_FLUENT_LEAF, "a fluent leaf", {(f"param:{N}", "attr:value", "attr:value")}, "leaf:fluent-value"),
+                                    (_NUMBER_LEAF, "a number leaf", {(f"param:{N}", "attr:value")}, "leaf:number-value")):
+        r.site(f"{f.qn}: {what}")
+        rets = returned(scene)
+        if not rets:
+            fail(f, role, f"calculate never returns for {what}")
+        for ret, tr in rets:
+            if tr == want:
+                r.ok({"node": what, "returns": "/".join(sorted(want)[0][1:])})
+            else:
+                fail(f, role, f"for {what} calculate returns {sorted(tr)[:2] or 'nothing it was given'}, expected {'the current value of the fluent (node.value.value)' if 'fluent' in what else 'the number held by the node (node.value)'}", ret)
+    for op, (bin_name, fn_name) in _OPERATOR_FN.items():
+        r.site(f"{f.qn}: operator node {op}")
+        rets = returned(_inner(op))
+        if not rets:
+            fail(f, "inner:result", f"calculate never returns for an operator node ({op} a b)")
+        for ret, tr in rets:
+            sides = {}
+            bad = []
+            for x in tr:
+                if x[0] != f"param:{N}":
+                    continue
+                k = next((i for i in range(len(x) - 3) if x[i + 1] == "attr:children" and x[i + 2].startswith("item:")
+                          and x[i + 3] == f"arg0:{f.name}"), None)
+                if k is None or len(x) != k + 5:
+                    bad.append(x)
+                    continue
+                child, last = x[k + 2][5:], x[-1]
+                if last.startswith("binop:"):
+                    _b, nm, side = last.split(":")
+                    if nm != bin_name or side != ("l" if child == "0" else "r"):
+                        bad.append(x)
+                elif last.startswith("arg") and ":" in last:
+                    pos, callee = last[3:].split(":", 1)
+                    if pos != child or (callee in [v[1] for v in _OPERATOR_FN.values()] and callee != fn_name):
+                        bad.append(x)
+                else:
+                    bad.append(x)
+                sides[child] = True
+            if bad or set(sides) != {"0", "1"}:
+                fail(f, "inner:result", f"for an operator node ({op} a b) calculate returns {sorted(bad or tr)[:2] or 'nothing it computed'}: expected "
+                     f"value(child 0) {op} value(child 1)", ret)
+            else:
+                r.ok({"node": f"({op} a b)", "returns": f"value(child 0) {op} value(child 1)"})
+    # set_expression_value: an operator node hands the state on to both children
+    Ng = g.params[0]
+    scg = Scenes(repo, g, pg, _node_classify(Ng))
+    Gg = L.Guards(g, scg.matcher)
+    val = scg.valuation(Gg, _inner("+"))
+    seen = Gg.reach(val)
+    under = Gg.under(val, seen)
+    reached = set()
+    for e in ast.walk(g.node):
+        if isinstance(e, (ast.Subscript, ast.Name)) and isinstance(e.ctx, ast.Load):
+            tr = _safe_trace(pg, e, under=under)
+            if len(tr) == 1 and next(iter(tr))[:2] == (f"param:{Ng}", "attr:children") and len(next(iter(tr))) == 3 and Gg.reaches_expr(val, e, seen=seen):
+                reached.add(next(iter(tr))[2])
+    r.site(f"{g.qn}: operator node")
+    if {"item:0", "item:1"} <= reached:
+        r.ok({"set_expression_value_descends_for_operator_node": sorted(reached)})
+    else:
+        fail(g, "descent:unreachable", f"for an operator node set_expression_value reaches only {sorted(reached) or 'none'} of its two children: the fluents "
+             f"below it keep the values of an earlier state")
 
 
 def rule_missing(repo: Repo, rid: str = "C12.missing") -> RuleResult:
@@ -504,6 +682,10 @@ def rule_missing(repo: Repo, rid: str = "C12.missing") -> RuleResult:
     for c in stores:
         r.site(L.site(f, c, "fluent value"))
         tr = p.trace(c.args[0])
+        # (the fluent's own name handed to `state.get(name)` is the KEY of the lookup, like a subscript index: not a stored value)
+        # and a path on which an attribute of the constant None would be read (`state.get(name, None).value`) is never taken
+        tr = {x for x in tr if not (x[0] == f"param:{node_param}" and "arg0:get" in x)
+              and not (x[0] == "const:None" and any(st.startswith("attr:") for st in x[1:]))}
         stale = sorted(x for x in tr if x[0] == f"param:{node_param}")
         other = sorted(x for x in tr if not (x[0] == f"param:{state_param}" or x[0] in ("const:0", "const:0.0") or x[0] == f"param:{node_param}"
                                              or (x[0].startswith("param:") and "askey" in x)))
@@ -518,11 +700,292 @@ def rule_missing(repo: Repo, rid: str = "C12.missing") -> RuleResult:
             r.ok({"store": unparse(c, 60)})
     if not from_state:
         r.fail(Finding(rid, f, "state-not-read", "no stored value comes from the state's fluents"))
+    # per class of node: a fluent leaf is given a value on EVERY way through the function (also when the state does not mention it),
+    # a number leaf is never treated as a fluent
+    from ._c12_util import Scenes
+    sc = Scenes(repo, f, p, _node_classify(node_param))
+    G = L.Guards(f, sc.matcher)
+    for scene, fluent in ((_FLUENT_LEAF, True), (_NUMBER_LEAF, False)):
+        val = sc.valuation(G, scene)
+        seen = G.reach(val)
+        under = G.under(val, seen)
+        own = [c for c in stores if isinstance(c.func, ast.Attribute) and G.reaches_expr(val, c, seen=seen)
+               and _safe_trace(p, c.func.value, under=under) == {(f"param:{node_param}", "attr:value")}]
+        r.site(f"{f.qn}: {'fluent' if fluent else 'number'} leaf")
+        if fluent:
+            nodes = {G.g.node_containing(c) for c in own}
+            if G.g.exit in G.reach(val, avoid=nodes):
+                r.fail(Finding(rid, f, "fluent-leaf:not-read", "set_expression_value can end for a fluent leaf without having stored a value in it (on some way "
+                               "through the function no set_value(..) is passed): the fluent keeps the value of an earlier evaluation"))
+            else:
+                r.ok({"fluent leaf": "every way through the function stores a value"})
+        elif own:
+            r.fail(Finding(rid, f, "number-leaf:stored", f"{unparse(own[0], 60)} is reached for a leaf that holds a number, not a fluent (a number has no "
+                           f"set_value): expressions that mention a numeric literal cannot be evaluated", node=own[0]))
+        else:
+            r.ok({"number leaf": "left alone"})
     return r
+
+
+# --------------------------------------------------------------------------- reading an expression: construct_expression_tree
+# the classes of parsed text the reader is handed (token = a string, otherwise a list whose head is the operator / function name)
+_NUMBER_TOKEN = "5"                 # a token that is a number (no keyword table contains it)
+_FUNCTION_NAME = "<function-name>"  # a head token that is a function name (no keyword table contains it)
+_FLUENT_LENGTHS = (1, 2, 3)         # lengths of a fluent's list: (f), (f ?x), (f ?x ?y) -- the name followed by 0, 1, 2 written arguments
+_POS = lambda i: (f"item:{i}", f"unpack:{i}")
+
+
+def _construct_classify(P: str):
+    """what an expression of construct_expression_tree denotes, by provenance: the parsed text itself (an object that is a str or a list,
+    a sequence, and -- when a string -- a token), its head, its tail from position k"""
+    def classify(tr: frozenset):
+        if len(tr) != 1:
+            return None
+        (x,) = tuple(tr)
+        if x == (f"param:{P}",):
+            return {"obj": "text", "seq": 0, "token": "token"}
+        if len(x) == 2 and x[0] == f"param:{P}" and x[1] in _POS(0):
+            return {"token": "head"}
+        if len(x) == 2 and x[0] == f"param:{P}" and x[1].startswith("slice:") and x[1].endswith(":") and x[1][6:-1].isdigit():
+            return {"seq": int(x[1][6:-1])}
+        return None
+    return classify
+
+
+def _node_parts(tr: set, fname: str, P: str):
+    """what the provenance of a returned node says about it: sources of its `value`, and per child position the sources of the child's
+    value / the argument of the recursive call that builds the child"""
+    vals = {x[:-1] for x in tr if x[-1] == "kw:value:AnyNode"}
+    kids = {}
+    for x in tr:
+        if len(x) >= 3 and x[-1] == "kw:children:AnyNode" and x[-2].startswith("in:"):
+            kids.setdefault(x[-2][3:], set()).add(x[:-2])
+    out = {}
+    for k, ys in kids.items():
+        out[k] = {"value": {y[:-1] for y in ys if y[-1] == "kw:value:AnyNode"},
+                  "recursion": {y[:-1] for y in ys if y[-1] == f"arg0:{fname}" and y[0] == f"param:{P}"}}
+    return vals, out
+
+
+def rule_construct(repo: Repo, rid: str = "C12.construct") -> RuleResult:
+    """construct_expression_tree, decided per class of parsed text: a number token becomes a leaf holding float(token); a flat list headed
+    by an arithmetic operator becomes that operator over its two numbers; a flat list headed by a function name becomes a leaf holding
+    the function object (with the arguments AS WRITTEN when there are any); a nested list becomes its head over the recursively built
+    second and third element.  Each class must end in a normal return, and every return reachable for the class has that shape."""
+    from ._c12_util import Scenes, returns_under
+    r = RuleResult(rid, "construct_expression_tree builds, for every class of parsed text, the node that denotes it",
+                   "reading an expression back preserves its structure and its value: number -> float leaf, (op a b) -> op over a, b in "
+                   "this order, (f args) -> the fluent f applied to these args")
+    f = L.fn(repo, f"{NE}::construct_expression_tree")
+    p = L.prov(repo, f)
+    if len(f.params) < 2:
+        raise AnalysisError(f"{rid}: construct_expression_tree(expression, functions) expected")
+    P, D = f.params[0], f.params[1]
+    sc = Scenes(repo, f, p, _construct_classify(P))
+    G = L.Guards(f, sc.matcher)
+    fname = f.name
+    arith = list(A.EXPECTED_ARITH)
+    roots = arith + list(A.EXPECTED_CMP) + list(A.EXPECTED_ASSIGN)
+    seen_roles = set()
+
+    def fail(role, text, node=None):
+        if role not in seen_roles:
+            seen_roles.add(role)
+            r.fail(Finding(rid, f, role, text, node=node))
+
+    def run(scene, label):
+        val = sc.valuation(G, scene)
+        seen = G.reach(val)
+        under = G.under(val, seen)
+        out = []
+        for ret in returns_under(G, seen):
+            out.append((ret, _safe_trace(p, ret.value, under=under)))
+        r.site(f"{f.qn}: {label}")
+        return val, seen, under, out
+
+    at = lambda i: {(f"param:{P}", f"item:{i}")}
+
+    # (1) a number token
+    val, seen, under, rets = run({"isa:text": "str", "token": _NUMBER_TOKEN}, "number token")
+    if not rets:
+        fail("literal:not-built", "a token that is a number (not an operator keyword) never reaches a normal return: every numeric literal of an "
+             "expression is rejected")
+    for ret, tr in rets:
+        vals, kids = _node_parts(tr, fname, P)
+        if vals == {(f"param:{P}", "arg0:float")} and not kids:
+            r.ok({"class": "number token", "value": "float(token)"})
+        else:
+            fail("literal:value", f"the leaf built for a number token holds {sorted(vals)[:2] or 'no value'}, not float(token): arithmetic on the "
+                 f"leaf does not compute with the number that was written", ret)
+
+    # (2) (op a b) over two number tokens
+    for op in arith:
+        val, seen, under, rets = run({"isa:text": "list", "len": 3, "elems": {"str"}, "head": op}, f"constant operation ({op} a b)")
+        if not rets:
+            fail("constant-operation:not-built", f"a flat list ({op} a b) of an arithmetic operator and two number tokens never reaches a normal return")
+        for ret, tr in rets:
+            vals, kids = _node_parts(tr, fname, P)
+            if not vals <= at(0) or not vals:
+                fail("constant-operation:operator", f"the node built for ({op} a b) holds {sorted(vals)[:2] or 'no value'} as its operator, not the "
+                     f"head of the list (it is not an operator node over the two numbers)", ret)
+                continue
+            good = True
+            for k in (0, 1):
+                kid = kids.get(str(k), {"value": set(), "recursion": set()})
+                want_v = {x + ("arg0:float",) for x in at(k + 1)}
+                ok_v = bool(kid["value"]) and kid["value"] <= want_v and not kid["recursion"]
+                ok_r = bool(kid["recursion"]) and kid["recursion"] <= at(k + 1) and not kid["value"]
+                if not (ok_v or ok_r):
+                    good = False
+                    fail(f"constant-operation:operand:{k}", f"operand {k} of the node built for ({op} a b) holds "
+                         f"{sorted(kid['value'] | kid['recursion'])[:2] or 'nothing'}, not float(element {k + 1}) of the list", ret)
+            if good:
+                r.ok({"class": f"({op} a b)", "operator": "head", "operands": ["float(element 1)", "float(element 2)"]})
+
+    # (3) (f arg ..): the fluent
+    ctor = repo.find_method("PDDLFunction", "__init__")
+    declared = (f"param:{D}", "item")
+    is_fresh = lambda x: x == ("fresh:PDDLFunction",) or (len(x) > 1 and x[-1].endswith(":PDDLFunction") and x[-1].startswith(("kw:", "arg")))
+    for n in _FLUENT_LENGTHS:
+        label = "(f)" if n == 1 else "(f " + " ".join(f"?x{i}" for i in range(1, n)) + ")"
+        val, seen, under, rets = run({"isa:text": "list", "len": n, "elems": {"str"}, "head": _FUNCTION_NAME}, f"fluent {label}")
+        if not rets:
+            fail("fluent:not-built", f"a flat list {label} headed by a function name never reaches a normal return: such fluents are rejected")
+        for ret, tr in rets:
+            vals, kids = _node_parts(tr, fname, P)
+            fresh = ("fresh:PDDLFunction",) in vals
+            if not vals or kids or not all(x == declared or is_fresh(x) for x in vals):
+                fail("fluent:value", f"the leaf built for {label} holds {sorted(vals)[:2] or 'no value'}, not the function object (evaluation reads "
+                     f"`.value` of a PDDLFunction at the leaves)", ret)
+            elif n > 1 and (declared in vals or not fresh):
+                fail("fluent:arguments", f"the leaf built for {label} can hold the domain's DECLARED function instead of a function with the arguments "
+                     f"as written: the fluent denotes another (or no) state variable", ret)
+            else:
+                r.ok({"class": f"fluent {label}", "value": "PDDLFunction(head, written arguments)" if fresh else "declared function"})
+        if n > 1:
+            for c in L.calls_in(f.node):
+                if callee_name(c) != "PDDLFunction" or not G.reaches_expr(val, c, seen=seen):
+                    continue
+                a_name, a_sig = L.arg_of(c, ctor, "name", 0), L.arg_of(c, ctor, "signature", 1)
+                tn = _safe_trace(p, a_name, under=under) if a_name is not None else set()
+                if not tn or not tn <= at(0):
+                    fail("fluent:name", f"{unparse(c, 60)}: the name of the fluent comes from {sorted(tn)[:2] or 'nowhere'}, not from the head of the list", c)
+                try:
+                    ents = L.map_entries(p.trace(a_sig, keys=True, under=under)) if a_sig is not None else set()
+                except (KeyError, RecursionError):
+                    ents = set()
+                keys = {src for kind, src in ents if kind == "key"}
+                vals_ = {src for kind, src in ents if kind == "value" and "askey" not in src}
+                want_k = {(f"param:{P}", "slice:1:", "zip0")}
+                want_v = {declared + ("attr:signature", "call:values", "zip1")}
+                if keys == want_k and vals_ == want_v:
+                    r.ok({"class": f"fluent {label}", "signature": "written arguments (elements 1..) paired with the declared types"})
+                else:
+                    fail("fluent:signature", f"{unparse(c, 60)}: the signature pairs {sorted(keys)[:2] or 'nothing'} with {sorted(vals_)[:2] or 'nothing'}; "
+                         f"expected the written arguments (elements 1.. of the list, all of them, in order) as keys and the declared parameter types "
+                         f"as values", c)
+
+    # (4) (op L R) with compound operands
+    for op in roots:
+        val, seen, under, rets = run({"isa:text": "list", "len": 3, "elems": {"str", "list"}, "head": op}, f"compound ({op} L R)")
+        if not rets:
+            fail("nested:not-built", f"a binary expression ({op} L R) with a compound operand never reaches a normal return")
+        for ret, tr in rets:
+            vals, kids = _node_parts(tr, fname, P)
+            if not vals or not vals <= at(0):
+                fail("nested:operator", f"the node built for ({op} L R) holds {sorted(vals)[:2] or 'no value'} as its operator, not the head of the list", ret)
+                continue
+            good = True
+            for k in (0, 1):
+                kid = kids.get(str(k), {"value": set(), "recursion": set()})
+                if not (kid["recursion"] and kid["recursion"] <= at(k + 1) and not kid["value"]):
+                    good = False
+                    fail(f"nested:operand:{k}", f"operand {k} of the node built for ({op} L R) is {sorted(kid['value'] | kid['recursion'])[:2] or 'nothing'}, "
+                         f"not the tree of element {k + 1} of the list", ret)
+            if good:
+                r.ok({"class": f"({op} L R)", "operator": "head", "operands": ["tree(element 1)", "tree(element 2)"]})
+    return r
+
+
+def rule_branch(repo: Repo, rid: str = "C12.branch") -> RuleResult:
+    """evaluate_expression decided per root operator: an assignment operator reaches the application of an ASSIGNMENT_EXPRESSIONS helper
+    and ends there; a comparison operator evaluates its left operand (child 0) as an expression"""
+    from ._c12_util import Scenes
+    r = RuleResult(rid, "evaluate_expression: assignment operators are applied as assignments (and nothing else), comparison operators compare the "
+                        "values of both operands", "assign/increase/decrease set the target; comparisons answer on the two evaluated sides")
+    f = L.fn(repo, f"{NE}::evaluate_expression")
+    p = L.prov(repo, f)
+    T = f.params[0]
+    sc = Scenes(repo, f, p, _node_classify(T))
+    G = L.Guards(f, sc.matcher)
+    atab = L.table(repo, NE, "ASSIGNMENT_EXPRESSIONS")
+    helpers = {v.id for v in atab.values() if isinstance(v, ast.Name)}
+    a_roots = {"global:ASSIGNMENT_EXPRESSIONS"} | {f"global:{h}" for h in helpers}
+    c_roots = {"global:COMPARISON_OPERATORS"}
+    calls = [c for c in L.calls_in(f.node)]
+    done = set()
+
+    def fail(role, text, node=None):
+        if role not in done:
+            done.add(role)
+            r.fail(Finding(rid, f, role, text, node=node))
+
+    def sites(val, seen, under, roots_):
+        out = []
+        for c in calls:
+            if isinstance(c.func, ast.Attribute) and not isinstance(c.func.value, ast.Subscript):
+                continue
+            if not G.reaches_expr(val, c, seen=seen):
+                continue
+            tr = _safe_trace(p, c.func, under=under)
+            if tr and {x[0] for x in tr} <= roots_:
+                out.append(c)
+        return out
+
+    for op in A.EXPECTED_ASSIGN:
+        r.site(f"{f.qn}: root operator {op}")
+        val = sc.valuation(G, {"op": op, "isa:value": "str", "len": 2, "leaf": False})
+        seen = G.reach(val)
+        under = G.under(val, seen)
+        applied = sites(val, seen, under, a_roots)
+        if not applied:
+            fail("assignment:not-applied", f"for the root operator {op!r} no application of an ASSIGNMENT_EXPRESSIONS helper is reachable: the numeric effect "
+                 f"is not performed")
+            continue
+        after = set()
+        for c in applied:
+            after |= G.reach(val, start=G.g.node_containing(c))
+        late = [c for c in sites(val, after, under, c_roots) if c not in applied]
+        if late:
+            fail("assignment:falls-into-comparison", f"after the assignment {op!r} has been applied the function goes on to {unparse(late[0], 60)}: "
+                 f"the effect is evaluated as a comparison as well", late[0])
+        else:
+            r.ok({"root": op, "applies": unparse(applied[0], 50)})
+    for op in A.EXPECTED_CMP:
+        r.site(f"{f.qn}: root operator {op}")
+        val = sc.valuation(G, {"op": op, "isa:value": "str", "len": 2, "leaf": False})
+        seen = G.reach(val)
+        under = G.under(val, seen)
+        left = [c for c in calls if callee_name(c) == "calculate" and c.args and G.reaches_expr(val, c, seen=seen)
+                and _safe_trace(p, c.args[0], under=under) == {(f"param:{T}", "attr:children", "item:0")}]
+        if left:
+            r.ok({"root": op, "left_operand": unparse(left[0], 50)})
+        else:
+            fail("comparison:left-operand-not-evaluated", f"for the root operator {op!r} the value of the left operand (child 0) is never calculated: the "
+                 f"comparison is not made on the two evaluated sides")
+    return r
+
+
+def _safe_trace(p, e, **kw) -> set:
+    """provenance with positions normalised (_norm_path); empty when the expression cannot be traced"""
+    try:
+        return _norm(p.trace(e, **kw))
+    except (KeyError, RecursionError):
+        return set()
 
 
 def rules(repo: Repo, tier: str) -> List[RuleResult]:
     from . import c13
     return [c13.rule_round(repo, "C12.round", ["NumericalExpressionTree.to_pddl", "NumericalExpressionTree.to_mathematical"]),
             c13.rule_digits(repo, "C12.digits", (NE,)), rule_arith(repo), rule_compare(repo), rule_assign(repo), rule_order(repo), rule_env(repo), rule_tables(repo),
-            rule_leaf(repo), rule_missing(repo)]
+            rule_leaf(repo), rule_missing(repo), rule_construct(repo), rule_branch(repo)]
